@@ -131,7 +131,9 @@ type c12Proto struct {
 func (p *c12Proto) Invoke(ctx context.Context, pkg []byte) []byte {
 	atomic.AddInt32(&p.started, 1)
 	current.SetPacketTypeFromContext(ctx, 0)
-	if p.dur > 0 {
+	if pkg[4] == 'L' {
+		time.Sleep(2000 * time.Millisecond) // a long request (two-connection scenario)
+	} else if p.dur > 0 {
 		time.Sleep(p.dur)
 	}
 	atomic.AddInt32(&p.finished, 1)
@@ -205,3 +207,43 @@ func VerifC12NoPool() { c12Shutdown(1+vapi.Choice("nreq", 2), 0); vapi.Reach("c1
 func VerifC12Pool()   { c12Shutdown(1+vapi.Choice("nreq", 3), 1); vapi.Reach("c12-pool") }
 
 func newC12Pool(n int) *gpool.Pool { return gpool.NewPool(n, 4) }
+
+// VerifC12TwoConns: pool of one worker, connection A has a long request running, connection B's
+// request is still queued when Shutdown starts: B's request is executed and answered before B
+// is closed.
+func VerifC12TwoConns() {
+	proto := &c12Proto{}
+	cfg := &TarsServerConf{Proto: "tcp", Address: "10.0.0.7:7777", AcceptTimeout: 200 * time.Millisecond, MaxInvoke: 1, QueueCap: 4}
+	ts := NewTarsServer(proto, cfg)
+	h := &tcpHandler{config: cfg, server: ts}
+	ts.handle = h
+	ln := &c12Listener{conns: make(chan net.Conn, 2)}
+	h.listener = ln
+	h.pool = newC12Pool(1)
+	a := &c12Conn{in: make(chan []byte, 4), closedCh: make(chan struct{})}
+	b := &c12Conn{in: make(chan []byte, 4), closedCh: make(chan struct{})}
+	a.in <- []byte{0, 0, 0, 5, 'L'}
+	ln.conns <- a
+	go func() { _ = h.Handle() }()
+	time.Sleep(50 * time.Millisecond)
+	b.in <- []byte{0, 0, 0, 5, 'q'}
+	ln.conns <- b
+	time.Sleep(time.Duration(1+vapi.Choice("when", 2)) * 150 * time.Millisecond)
+	ctx, cancel := context.WithTimeout(context.Background(), 20*time.Second)
+	err := ts.Shutdown(ctx)
+	cancel()
+	vapi.Check(err == nil, "Shutdown returns without error")
+	vapi.Quiesce()
+	for _, c := range []*c12Conn{a, b} {
+		read := int(atomic.LoadInt32(&c.readBytes)) / 5
+		answered := 0
+		for _, w := range c.writes {
+			if len(w) >= 5 && w[4] == 'R' {
+				answered++
+			}
+		}
+		vapi.Check(answered == read, "two connections: every request already read is answered before its connection is closed")
+		vapi.Check(atomic.LoadInt32(&c.writesAfterClose) == 0, "two connections: no response is written after the connection was closed")
+	}
+	vapi.Reach("c12-twoconns")
+}
